@@ -128,13 +128,18 @@ mutual
 def pMixture (T : Table) : Nat → List Char → Res Mix
   | 0, _ => .error .fail
   | fuel + 1, s =>
-    match pComposite T (fuelFor s) s with
-    | .ok (fs, r) =>
-      match pDensity r with
-      | .ok (d, r') => .ok (.compound fs d, r')
-      | .error e => .error e
+    -- `mixture << (grouped_mixture | compound)` (mixtures first, so that a leading quantity such as
+    -- `2L` is not read as a count followed by the unknown element L)
+    match pGrouped T fuel s with
+    | .ok x => .ok x
     | .error .abort => .error .abort
-    | .error .fail => pGrouped T fuel s
+    | .error .fail =>
+      match pComposite T (fuelFor s) s with
+      | .ok (fs, r) =>
+        match pDensity r with
+        | .ok (d, r') => .ok (.compound fs d, r')
+        | .error e => .error e
+      | .error e => .error e
 /-- `grouped_mixture = opengrp + ungrouped_mixture + closegrp + Optional(density)` -/
 def pGrouped (T : Table) : Nat → List Char → Res Mix
   | 0, _ => .error .fail
@@ -276,21 +281,21 @@ def pQtyPart (T : Table) (units : List (List Char)) : Nat → List Char → Res 
               .ok (fun rest => .rep inner c rest, r4)
 end
 
-/-- `Optional(compound | ungrouped_mixture | grouped_mixture) + StringEnd()`: the first alternative
+/-- `Optional(ungrouped_mixture | compound | grouped_mixture) + StringEnd()`: the first alternative
     that matches a prefix is committed to -/
 def parseTop (T : Table) (s : List Char) : Except Err Mix :=
   let fuel := fuelFor s
   let atEnd (m : Mix) (r : List Char) : Except Err Mix :=
     if (skipWs r).isEmpty then .ok m else .error .fail
-  match pComposite T fuel s with
-  | .ok (fs, r) =>
-    match pDensity r with
-    | .ok (d, r') => atEnd (.compound fs d) r'
-    | .error e => .error e
+  match pUngrouped T fuel s with
+  | .ok (m, r) => atEnd m r
   | .error .abort => .error .abort
   | .error .fail =>
-    match pUngrouped T fuel s with
-    | .ok (m, r) => atEnd m r
+    match pComposite T fuel s with
+    | .ok (fs, r) =>
+      match pDensity r with
+      | .ok (d, r') => atEnd (.compound fs d) r'
+      | .error e => .error e
     | .error .abort => .error .abort
     | .error .fail =>
       match pGrouped T fuel s with
